@@ -673,3 +673,46 @@ TABULATED = {
     'toml_datetime::datetime::digit': 'C12/R4',
     'toml_edit::error::translate_position': 'C15/R4 (every text of up to four characters over a multi-byte alphabet, every index)',
 }
+
+
+
+def header_start_model(facts):
+    """ParseState::start_table / start_array_table evaluated on a model parser state, once with nothing under the header's name and once with a
+    header-implied table there (which start_table adopts).  Yields (fn, case, outcome) where outcome is None when the function refuses, an
+    'unanalysable: ..' / 'panic: ..' string, or {'span', 'implicit', 'dotted', 'decor', 'position', 'path', 'adopted'} describing the current table afterwards."""
+    from .den import RecInterp, Evaluator, EvalPanic, Unanalysable, VecObj
+    I = 'toml_edit::item::Item::'
+    SOME, NONE = 'core::option::Option::Some', 'core::option::Option::None'
+
+    def T(implicit, dotted, tag):
+        return ('struct', 'toml_edit::table::Table', {'implicit': implicit, 'dotted': dotted, 'items': (), 'span': ('ctor', NONE), 'decor': ('old-decor',), 'doc_position': ('ctor', NONE), 'tag': tag})
+    for fn in ('start_table', 'start_array_table'):
+        d = 'toml_edit::parser::state::ParseState::' + fn
+        if not facts.has_body(d):
+            yield fn, 'nothing there', 'unanalysable: not found'
+            continue
+        b = facts.body(d)
+        for case in ('nothing there', 'a header-implied table there'):
+            existing = ('ctor', NONE) if case == 'nothing there' else ('ctor', SOME, (('ctor', I + 'Table', (T(True, False, 'adopted'),)),))
+            aot = ('ctor', I + 'ArrayOfTables', (('struct', 'toml_edit::array_of_tables::ArrayOfTables', {'values': VecObj([])}),))
+            st = ('struct', 'toml_edit::parser::state::ParseState', {'root': T(False, False, 'root'), 'current_table': T(True, True, 'fresh'), 'current_table_path': VecObj([]),
+                                                                   'current_table_position': 4, 'current_is_array': fn == 'start_table', 'trailing': ('ctor', NONE)})
+            it = RecInterp(Evaluator(facts), set(), {'descend_path'}, stubs={'remove': existing, 'or_insert': aot})
+            path = VecObj([('struct', 'toml_edit::key::Key', {'key': 'a'}), ('struct', 'toml_edit::key::Key', {'key': 'b'})])
+            try:
+                r = it.apply_fn(b, [st, path, ('new-decor',), ('range', 10, 15)])
+            except EvalPanic as ex:
+                yield fn, case, f'panic: {ex}'
+                continue
+            except Unanalysable as ex:
+                yield fn, case, f'unanalysable: {ex}'
+                continue
+            if not (isinstance(r, tuple) and r[:2] == ('ctor', 'core::result::Result::Ok')):
+                yield fn, case, None
+                continue
+            ct = st[2]['current_table']
+            f = ct[2] if isinstance(ct, tuple) and len(ct) == 3 else {}
+            unopt = lambda v: (v[2][0] if len(v) > 2 else None) if isinstance(v, tuple) and v[:1] == ('ctor',) and v[1].startswith('core::option::Option::') else v
+            yield fn, case, {'span': unopt(f.get('span')), 'implicit': f.get('implicit'), 'dotted': f.get('dotted'), 'decor': f.get('decor'), 'position': unopt(f.get('doc_position')),
+                             'adopted': f.get('tag') == 'adopted', 'path': [k[2].get('key') for k in getattr(st[2]['current_table_path'], 'items', [])], 'is_array': st[2]['current_is_array'],
+                             'counter': st[2]['current_table_position']}
